@@ -21,7 +21,7 @@ RULE = ('per registered strategy (28) and hamming expansion k in {0,1}: generate
 ASSUMPTIONS = ['vlib/spec/layouts.py is a hand-written specification (trusted)',
                'for content-dependent strategies (TCHIC, CHICTV, DamAndT family) the emitted stretch only has to be a contiguous, index-aligned slice starting at or after the insert start',
                'the emptied 10x whitelist is replaced by a generated one in a scratch barcode directory']
-MIN_NONTRIVIAL = {'quick': 3000, 'thorough': 40000}
+MIN_NONTRIVIAL = {'quick': 3000, 'thorough': 150000}
 REQUIRED_MONITORS = ['hook:target.write', 'hook:reject.write', 'check:tags', 'check:emitted', 'check:serialised']
 SHARD_TIMEOUT = {'quick': 600, 'thorough': 3600}
 
@@ -29,7 +29,7 @@ SHARD_TIMEOUT = {'quick': 600, 'thorough': 3600}
 def gen_cases(tier, seed):
     cases = []
     n = 150 if tier == 'quick' else 700
-    reps = 1 if tier == 'quick' else 3
+    reps = 1 if tier == 'quick' else 12
     for name in LY.ALL_NAMES:
         for k in (0, 1):
             for rep in range(reps):
